@@ -452,6 +452,13 @@ def _num(tok):
     from fractions import Fraction
     import math
     try:
+        if tok.startswith("b:"):
+            # IEEE-754 binary64 bit pattern (16 hex digits)
+            import struct
+            f = struct.unpack(">d", bytes.fromhex(tok[2:].rjust(16, "0")))[0]
+            if math.isnan(f) or math.isinf(f):
+                return None
+            return Fraction(f)
         if "/" in tok:
             return Fraction(tok)
         f = float(tok)
@@ -471,7 +478,9 @@ def numeric_equal(impl_line, model_line, tol):
     rel = float(tol.get("rel", 0.0))
     ab = float(tol.get("abs", 0.0))
     from fractions import Fraction
-    a, b = impl_line.split(), model_line.split()
+    # tokens starting with `~` are annotations of the model (not compared)
+    a = [t for t in impl_line.split() if not t.startswith("~")]
+    b = [t for t in model_line.split() if not t.startswith("~")]
     if len(a) != len(b):
         return False
     for x, y in zip(a, b):
@@ -491,6 +500,32 @@ def numeric_equal(impl_line, model_line, tol):
         if not (lo - slack <= v <= hi + slack):
             return False
     return True
+
+
+def numeric_stats(impl, model, differs, ids=None, annotation_keys=("fin",)):
+    """Statistics of a numeric comparison: how many lines are textually identical once annotations are
+    dropped (bit patterns `b:…` equal = bit-exact), how many agree only within the tolerance, and a
+    histogram of the model's `~key=value` annotations against the implementation's tokens named in
+    `annotation_keys` (e.g. `~dom=1 | fin=0`), per class of case id (`pp-<mode>-<tag>` for generated
+    attribute lines, `real-map` otherwise)."""
+    exact = within = 0
+    hist = {}
+    for i, (a, b, d) in enumerate(zip(impl, model, differs)):
+        ann = [t for t in b.split() if t.startswith("~")]
+        core = " ".join(t for t in b.split() if not t.startswith("~"))
+        if d:
+            continue
+        if a == core:
+            exact += 1
+        else:
+            within += 1
+        if ann:
+            keep = [t for t in a.split() if t.partition("=")[0] in annotation_keys]
+            cid = ids[i] if ids and i < len(ids) else ""
+            cls = "-".join(cid.split("-")[:3]) if cid.startswith("pp-") else "real-map"
+            k = cls + ": " + " ".join(ann) + " | " + " ".join(keep)
+            hist[k] = hist.get(k, 0) + 1
+    return {"bit_exact_lines": exact, "within_tolerance_only": within, "annotations": hist}
 
 
 def load_known():
